@@ -25,6 +25,7 @@ ASSUMPTIONS = [
 ]
 
 SPECS_Q = {"SE": "SE", "RQ": "RQ", "WN": "WN", "HN": "HN", "SE+WN": ("sum", ["SE", "WN"]), "SE+RQ": ("sum", ["SE", "RQ"]),
+           "WN+SE": ("sum", ["WN", "SE"]), "SE+WN+RQ": ("sum", ["SE", "WN", "RQ"]),
            "CP2": ("cp", ["SE", "SE"]), "CP3": ("cp", ["SE", "SE", "SE"])}
 SPECS_T = dict(SPECS_Q, **{"SE+SE+WN": ("sum", ["SE", "SE", "WN"]), "CP(SE,RQ)": ("cp", ["SE", "RQ"]),
                            "CP(SE,SE+WN)": ("cp", ["SE", ("sum", ["SE", "WN"])]), "CP2+WN": ("sum", [("cp", ["SE", "SE"]), "WN"]),
